@@ -44,7 +44,7 @@ theorem snake_alnum_preserved (n : Name) : alnum (snake n) = lower (alnum n) := 
 theorem snake_tokens_fixed (n : Name) : tokens (snake n) = (tokens n).map lower :=
   tokens_joinU _ (snakeWords_canon n)
 
-example : snake "fooBarHTTPResponse2x_ABc".toList = "foo_bar_http_response_2_x_a_bc".toList := by decide
+example : snake "fooBarHTTPResponse2x_ABc".toList = "foo_bar_http_response_2_x_a_bc".toList := by decide +kernel
 
 
 /-! ## 3. `process_name`: letters kept -/
@@ -61,8 +61,8 @@ theorem alnum_fallback (cfg : Cfg) (n : Name) (h : fallbackFires cfg n = true) :
     alnum n = [] ∧ processName cfg n = fallbackName :=
   fallback_processName cfg n h
 
-example : fallbackFires ⟨true, true, true⟩ "fooBar".toList = false := by decide
-example : fallbackFires ⟨false, true, true⟩ "__".toList = true := by decide
+example : fallbackFires ⟨true, true, true⟩ "fooBar".toList = false := by decide +kernel
+example : fallbackFires ⟨false, true, true⟩ "__".toList = true := by decide +kernel
 
 /-! ## 4. `process_name`: the output is a usable Python name, exactly outside two trigger regions -/
 
@@ -134,19 +134,19 @@ theorem valid_identifier_iff (cfg : Cfg) (n : Name) (hg : GName n) :
     · rw [processName_snake_allU cfg n hs hu]
       simp [outOK_fallback, hT, trigDigitLead, hs, allUnderscore_alnum hu, cls1]
 
-example : GName "_1".toList ∧ trigDigitLead ⟨true, true, true⟩ "_1".toList = true := by decide
-example : GName "_class".toList ∧ trigTrimToKeyword ⟨false, true, true⟩ "_class".toList = true := by decide
+example : GName "_1".toList ∧ trigDigitLead ⟨true, true, true⟩ "_1".toList = true := by decide +kernel
+example : GName "_class".toList ∧ trigTrimToKeyword ⟨false, true, true⟩ "_class".toList = true := by decide +kernel
 example : GName "fooBar".toList ∧ trigDigitLead ⟨true, true, true⟩ "fooBar".toList = false
-    ∧ trigTrimToKeyword ⟨false, true, true⟩ "fooBar".toList = false := by decide
+    ∧ trigTrimToKeyword ⟨false, true, true⟩ "fooBar".toList = false := by decide +kernel
 
 /-- C18-F4 on the model: `_1` becomes `1`. -/
 theorem digit_lead_witness : processName ⟨true, true, true⟩ "_1".toList = "1".toList ∧
-    ¬ PyIdent (processName ⟨true, true, true⟩ "_1".toList) := by decide
+    ¬ PyIdent (processName ⟨true, true, true⟩ "_1".toList) := by decide +kernel
 
 /-- C18-F5 on the model: with snake-casing off `_class` becomes the keyword, `_copy` shadows `BaseModel.copy`. -/
 theorem trim_to_keyword_witness :
     processName ⟨false, true, true⟩ "_class".toList = "class".toList ∧ "class".toList ∈ kwlistC ∧
-    processName ⟨false, true, true⟩ "_copy".toList = "copy".toList ∧ "copy".toList ∈ reservedC := by decide
+    processName ⟨false, true, true⟩ "_copy".toList = "copy".toList ∧ "copy".toList ∈ reservedC := by decide +kernel
 
 
 /-! ## 5. `process_name`: idempotence, exactly outside two trigger regions -/
@@ -218,10 +218,10 @@ theorem process_idempotent_plain (cfg : Cfg) (hs : cfg.snake = false) (ht : cfg.
 theorem process_idempotent_false :
     (∀ t r, processName ⟨true, t, r⟩ (processName ⟨true, t, r⟩ "_".toList) ≠ processName ⟨true, t, r⟩ "_".toList) ∧
     (∀ r, processName ⟨false, true, r⟩ (processName ⟨false, true, r⟩ "_class".toList) ≠ processName ⟨false, true, r⟩ "_class".toList) := by
-  decide
+  decide +kernel
 
-example : GName "__".toList ∧ trigFallbackNotFixed ⟨true, false, false⟩ "__".toList = true := by decide
-example : GName "fooBar".toList ∧ trigFallbackNotFixed ⟨true, true, true⟩ "fooBar".toList = false := by decide
+example : GName "__".toList ∧ trigFallbackNotFixed ⟨true, false, false⟩ "__".toList = true := by decide +kernel
+example : GName "fooBar".toList ∧ trigFallbackNotFixed ⟨true, true, true⟩ "fooBar".toList = false := by decide +kernel
 
 
 /-! ## 6. The wire name is kept -/
@@ -243,9 +243,9 @@ theorem alias_iff (snakeSetting : Bool) (n : Name) :
   · by_cases h : pyName snakeSetting .resultField n = n <;> simp [emit, h]
   · by_cases h : pyName snakeSetting .inputField n = n <;> simp [emit, h]
 
-example : emit true .resultField "fooBar".toList = ⟨"foo_bar".toList, some "fooBar".toList, "fooBar".toList⟩ := by decide
-example : emit true .resultField "__typename".toList = ⟨"typename__".toList, some "__typename".toList, "__typename".toList⟩ := by decide
-example : emit false .inputField "x".toList = ⟨"x".toList, none, "x".toList⟩ := by decide
+example : emit true .resultField "fooBar".toList = ⟨"foo_bar".toList, some "fooBar".toList, "fooBar".toList⟩ := by decide +kernel
+example : emit true .resultField "__typename".toList = ⟨"typename__".toList, some "__typename".toList, "__typename".toList⟩ := by decide +kernel
+example : emit false .inputField "x".toList = ⟨"x".toList, none, "x".toList⟩ := by decide +kernel
 
 /-! ## 7. When do two names of one scope get the same Python name? -/
 
@@ -284,11 +284,11 @@ theorem collision_iff (cfg : Cfg) (a b : Name) (ha : GName a) (hb : GName b) :
       · rw [h]
       · exact h
 
-example : trigMerge ⟨true, true, true⟩ "fooBar".toList "foo_bar".toList = true := by decide
-example : trigMerge ⟨false, true, true⟩ "_x".toList "x".toList = true := by decide
-example : trigMerge ⟨false, false, false⟩ "class".toList "class_".toList = true := by decide
-example : trigMerge ⟨false, true, true⟩ "_class".toList "class".toList = false := by decide
-example : trigMerge ⟨false, true, true⟩ "fooBar".toList "foo_bar".toList = false := by decide
+example : trigMerge ⟨true, true, true⟩ "fooBar".toList "foo_bar".toList = true := by decide +kernel
+example : trigMerge ⟨false, true, true⟩ "_x".toList "x".toList = true := by decide +kernel
+example : trigMerge ⟨false, false, false⟩ "class".toList "class_".toList = true := by decide +kernel
+example : trigMerge ⟨false, true, true⟩ "_class".toList "class".toList = false := by decide +kernel
+example : trigMerge ⟨false, true, true⟩ "fooBar".toList "foo_bar".toList = false := by decide +kernel
 
 
 /-! ## 8. Scopes: the property at full strength, its refutation, and the exact supported region -/
@@ -373,9 +373,9 @@ instance (sn : Bool) (s : Scope) (names : List Name) : Decidable (Supported_18 s
     `foo_bar` as two response keys, and they become one pydantic field. -/
 theorem C18_full_false : ¬ C18_full := by
   intro h
-  have := h [] true .resultField ["fooBar".toList, "foo_bar".toList] (by decide) (by decide)
+  have := h [] true .resultField ["fooBar".toList, "foo_bar".toList] (by decide +kernel) (by decide +kernel)
   revert this
-  decide
+  decide +kernel
 
 /-- fixed module stems of a package generated with the default settings -/
 def defaultFixed : List Name :=
@@ -389,6 +389,13 @@ def Bad (sn : Bool) (s : Scope) (names : List String) : Prop :=
 instance (sn : Bool) (s : Scope) (names : List String) : Decidable (Bad sn s names) := by
   unfold Bad; infer_instance
 
+/-- the function-level form (DESIGN.md Appendix A): `process_name` is not injective on GraphQL names,
+    under any flag combination with snake-casing on, nor with trimming on, nor with both off -/
+theorem process_name_not_injective :
+    ¬ (∀ (cfg : Cfg) (a b : Name), GName a → GName b → a ≠ b → processName cfg a ≠ processName cfg b) := by
+  intro h
+  exact h ⟨true, false, false⟩ "fooBar".toList "foo_bar".toList (by decide +kernel) (by decide +kernel) (by decide +kernel) (by decide +kernel)
+
 /-- the other witnesses, one per finding and scope -/
 theorem C18_witnesses :
     Bad true .inputField ["fooBar", "foo_bar"] ∧ Bad true .variable ["fooBar", "foo_bar"] ∧
@@ -400,7 +407,7 @@ theorem C18_witnesses :
     Bad false .resultField ["_class"] ∧ Bad false .inputField ["_copy"] ∧       -- C18-F5
     Bad false .inputField ["_", "underscore_named_field_"] ∧                    -- C18-F7
     Bad false .resultField ["__typename", "typename__"] := by                   -- C18-F8
-  decide
+  decide +kernel
 
 /-- `C18_partial`, in its exact form: for GraphQL names without repetition, a scope is lawful
     ⇔ it lies outside every finding region.  (⇐ is the partial theorem; ⇒ says the regions are not
@@ -436,7 +443,7 @@ theorem C18_partial (fixed : List Name) (snakeSetting : Bool) (s : Scope) (names
 example : (∀ n ∈ ["id", "firstName", "HTTPStatus", "class", "copy", "__typename", "_private"].map String.toList, GName n) ∧
     (["id", "firstName", "HTTPStatus", "class", "copy", "__typename", "_private"].map String.toList).Nodup ∧
     Supported_18 true .resultField (["id", "firstName", "HTTPStatus", "class", "copy", "__typename", "_private"].map String.toList) := by
-  decide
+  decide +kernel
 
 /-! ## 9. Injectivity on canonical names -/
 
@@ -460,8 +467,28 @@ theorem injective_on_image_false :
     let cfg : Cfg := ⟨true, true, true⟩
     let a := processName cfg "_".toList
     let b := processName cfg "underscoreNamedField".toList
-    a ≠ b ∧ processName cfg a = processName cfg b := by decide
+    a ≠ b ∧ processName cfg a = processName cfg b := by decide +kernel
 
-example : Canonical ⟨true, true, true⟩ "foo_bar".toList := ⟨"fooBar".toList, by decide, by decide, by decide, by decide⟩
+example : Canonical ⟨true, true, true⟩ "foo_bar".toList := ⟨"fooBar".toList, by decide +kernel, by decide +kernel, by decide +kernel, by decide +kernel⟩
+
+
+/-! ## 10. `str_to_pascal_case` (the result class of an operation) -/
+
+/-- idempotent, for every name -/
+theorem pascal_idempotent (n : Name) : pascal (pascal n) = pascal n := pascal_idem n
+
+/-- letters and digits are kept in order; only the case of the first letter of a word may change -/
+theorem pascal_alnum_preserved (n : Name) : lower (alnum (pascal n)) = lower (alnum n) := lower_alnum_pascal n
+
+/-- the class name of an operation is a usable Python name ⇔ the operation name is outside C18-F9
+    (`_` ↦ empty name, `_1` ↦ `1`, `none` ↦ `None`) -/
+theorem pascal_valid_iff (n : Name) (hg : GName n) :
+    (PyIdent (pascal n) ∧ pascal n ∉ kwlistC) ↔ trigPascalBad n = false := by
+  rw [pyIdent_pascal_iff hg]
+  simp only [trigPascalBad, Bool.or_eq_false_iff, beq_eq_false_iff_ne, ne_eq, decide_eq_false_iff_not, and_assoc]
+
+theorem pascal_witnesses :
+    pascal "_".toList = [] ∧ pascal "_1".toList = "1".toList ∧ pascal "none".toList = "None".toList ∧
+    "None".toList ∈ kwlistC ∧ trigPascalBad "none".toList = true ∧ trigPascalBad "getUser".toList = false := by decide +kernel
 
 end Ariadne.C18
